@@ -162,6 +162,14 @@ def c09_task(arg):
         out["transitions"] += 1
         if d:
             err("rollout:out-of-range-eps/step-not-clipped", dict(diff=d))
+        # replace_eps on an initialised state: same as initialising with that episode (rng and buffers are episode independent)
+        if n_eps > 1:
+            a = g.init(rng=jax.random.PRNGKey(8), starting_eps=0).replace_eps(g.timings, jnp.int32(n_eps - 1))
+            b = g.init(rng=jax.random.PRNGKey(8), starting_eps=n_eps - 1)
+            out["transitions"] += 1
+            d = _same(_canon(J["run"](a)), _canon(J["run"](b)))
+            if d:
+                err("replace_eps:run-differs-from-init-with-that-episode", dict(diff=d))
         # params override
         C = classes()
         first = sorted(nodes)[0]
